@@ -807,6 +807,60 @@ func classify(c *C13Case) (classes []string, nontrivial bool) {
 		devHas[d.Path] = true
 	}
 	keyed("dev", ents, func(k string) bool { return devHas[k] })
+	{
+		// ids shared between two id spaces: a device set at the (cleaned) destination of a mount
+		isBind := func(m rspec.Mount) bool {
+			if m.Type == "bind" {
+				return true
+			}
+			for _, o := range m.Options {
+				if o == "bind" || o == "rbind" {
+					return true
+				}
+			}
+			return false
+		}
+		atMount, atBind, alsoRemoved, atAdjMount := false, false, false, false
+		for _, d := range a.Devices {
+			if _, rm := marked(d.Path); rm {
+				continue
+			}
+			for _, m := range s.Mounts {
+				if path.Clean(m.Destination) != path.Clean(d.Path) {
+					continue
+				}
+				atMount = true
+				if isBind(m) {
+					atBind = true
+					for _, am := range a.Mounts {
+						if k, rm := marked(am.Dest); rm && k == m.Destination {
+							alsoRemoved = true
+						}
+					}
+				}
+			}
+			for _, am := range a.Mounts {
+				if _, rm := marked(am.Dest); !rm && path.Clean(am.Dest) == path.Clean(d.Path) {
+					atAdjMount = true
+				}
+			}
+			if c.Inject != nil && c.Inject.MountAtDevice && len(a.CDI) > 0 && path.Clean(d.Path) == "/dev/nvidia0" {
+				add("dev:set_at_bind_mount_from_injector")
+			}
+		}
+		if atMount {
+			add("dev:set_at_mount_destination_in_spec")
+		}
+		if atBind {
+			add("dev:set_at_bind_mount_destination_in_spec")
+		}
+		if alsoRemoved {
+			add("dev:set_at_bind_mount_removed_by_same_adjustment")
+		}
+		if atAdjMount {
+			add("dev:set_at_mount_added_by_same_adjustment")
+		}
+	}
 
 	scalar := func(name string, requested, replaces bool) {
 		if !requested {
@@ -1241,6 +1295,16 @@ func TestExh_C13(t *testing.T) {
 		}
 		n++
 	}
+	// device paths and mount destinations are one id space
+	for _, c := range deviceAtMountSweep() {
+		o := runC13(c)
+		o.Classes = append([]string{"sweep"}, o.Classes...)
+		r.Record(c, o)
+		if o.Fail != "" {
+			t.Fatalf("C13: %s", o.Fail)
+		}
+		n++
+	}
 	// families without removal markers: dash-named keys and values are ordinary
 	for i := range literalDashSweep() {
 		c := literalDashSweep()[i]
@@ -1430,5 +1494,43 @@ func oddByteSweep() []C13Case {
 			)
 		}
 	}
+	return out
+}
+
+// deviceAtMountSweep: the adjustment adds the device /dev/fuse while something is mounted at
+// /dev/fuse: per mount flavour (bind type, rbind option only, tmpfs, unclean spelling), with
+// and without a device already at the path, the mount coming from the spec, from the same
+// adjustment, being removed by the same adjustment, or from the CDI injector.
+func deviceAtMountSweep() []C13Case {
+	var out []C13Case
+	dev := AdjDevice{Path: "/dev/fuse", Type: "c", Major: 10, Minor: 229}
+	mounts := []rspec.Mount{
+		{Destination: "/dev/fuse", Type: "bind", Source: "/dev/fuse", Options: []string{"rw"}},
+		{Destination: "/dev/fuse", Type: "", Source: "/dev/fuse", Options: []string{"rbind"}},
+		{Destination: "/dev/fuse", Type: "tmpfs", Source: "tmpfs"},
+		{Destination: "/dev/fuse/", Type: "bind", Source: "/dev/fuse"},
+		{Destination: "/dev/./fuse", Type: "none", Source: "/dev/fuse", Options: []string{"bind", "ro"}},
+	}
+	for _, m := range mounts {
+		for _, hasDev := range []bool{false, true} {
+			s := rspec.Spec{Version: "1.1.0", Process: &rspec.Process{Cwd: "/"}, Linux: &rspec.Linux{},
+				Mounts: []rspec.Mount{{Destination: "/dev", Type: "tmpfs", Source: "tmpfs"}, m}}
+			if hasDev {
+				s.Linux.Devices = []rspec.LinuxDevice{{Path: "/dev/fuse", Type: "c", Major: 1, Minor: 1}}
+			}
+			out = append(out, C13Case{Spec: s, Reps: 4, Adj: Adj{Devices: []AdjDevice{dev}}})
+			// the same adjustment also removes that mount
+			s2 := s
+			s2.Mounts = append([]rspec.Mount(nil), s.Mounts...)
+			out = append(out, C13Case{Spec: s2, Reps: 4, Adj: Adj{Devices: []AdjDevice{dev}, Mounts: []AdjMount{{Dest: "-" + m.Destination}}}})
+		}
+	}
+	base := rspec.Spec{Version: "1.1.0", Process: &rspec.Process{Cwd: "/"}, Linux: &rspec.Linux{}}
+	// the mount is added by the same adjustment
+	out = append(out, C13Case{Spec: base, Reps: 4, Adj: Adj{Devices: []AdjDevice{dev}, Mounts: []AdjMount{{Dest: "/dev/fuse", Type: "bind", Source: "/dev/fuse", Options: []string{"rbind"}}}}})
+	// the mount comes from the CDI injector (first step), the device from the same and from a later step
+	nv := AdjDevice{Path: "/dev/nvidia0", Type: "c", Major: 195, Minor: 0}
+	out = append(out, C13Case{Spec: base, Reps: 4, Inject: &Inject{MountAtDevice: true}, Adj: Adj{CDI: []string{"vendor.com/gpu=0"}, Devices: []AdjDevice{nv}}})
+	out = append(out, C13Case{Spec: base, Reps: 4, Inject: &Inject{MountAtDevice: true}, Adj: Adj{CDI: []string{"vendor.com/gpu=0"}}, More: []Adj{{Devices: []AdjDevice{nv}}}})
 	return out
 }
